@@ -114,6 +114,56 @@ def residue_multiset(a):
     return Counter((aa, frozenset((mkey(im.get(k)) or Counter()).items())) for k, aa in enumerate(a._sequence))
 
 
+def _conv(text):
+    for f in (int, float):
+        try:
+            return f(text)
+        except ValueError:
+            pass
+    return text
+
+
+def ref_static_rules(a):
+    """independent reading of the static rules '[m1][m2]^k@T1,T2': {target: [(val, mult), ...]}"""
+    import re as _re
+    out = {}
+    for rule in (a._static_mods or []):
+        text = str(rule.val)
+        body, _, targets = text.rpartition('@')
+        mods = [(_conv(v), int(k) if k else 1) for v, k in _re.findall(r'\[([^\]]*)\](?:\^(\d+))?', body)]
+        for t in targets.split(','):
+            out.setdefault(t, []).extend(mods)
+    return out
+
+
+def ref_residue_keys(a):
+    """the modified residues of an annotation without intervals, read independently of condense_static_mods / split / ==:
+    residue letter, the multiset of its own and static modifications, terminal modifications on the end residues, the
+    global modifications every piece carries (labile ones stay with the first residue)"""
+    def bag(pairs):
+        return None if pairs is None else frozenset(Counter(pairs).items())
+
+    def pairs(mods):
+        return None if mods is None else [(m.val, m.mult) for m in mods]
+
+    rules = ref_static_rules(a)
+    n = len(a._sequence)
+    nterm, cterm = pairs(a._nterm_mods), pairs(a._cterm_mods)
+    if 'N-Term' in rules:
+        nterm = (nterm or []) + rules['N-Term']
+    if 'C-Term' in rules:
+        cterm = (cterm or []) + rules['C-Term']
+    glob = (bag(pairs(a._unknown_mods)), bag(pairs(a._isotope_mods)), bag(pairs(a._charge_adducts)), a._charge)
+    keys = []
+    for k, aa in enumerate(a._sequence):
+        own = pairs((a._internal_mods or {}).get(k))
+        if aa in rules:
+            own = (own or []) + rules[aa]
+        lab = bag(pairs(a._labile_mods)) if (k == 0 and a._labile_mods) else None
+        keys.append((aa, bag(own), bag(nterm) if k == 0 else None, bag(cterm) if k == n - 1 else None, lab) + glob)
+    return Counter(keys)
+
+
 # ----------------------------------------------------------------------------- generators
 
 def cut(t, i, j):
@@ -272,7 +322,7 @@ def run(chk):
                    compare=pct_cmp, nontrivial_fn=lambda c, im: float(im) > 0)
 
     # ---------------------------------------------------------------- (c) random modified targets
-    nrand = 1500 if tier == 'quick' else 10000
+    nrand = 1200 if tier == 'quick' else 10000
     mod_cases = []
     for _ in range(nrand):
         t = gen_target(rng)
@@ -389,6 +439,37 @@ def run(chk):
     chk.oracle('unordered_containment', ucases, lambda c: prop_unordered(pt, c), nontrivial_fn=lambda c: True,
                key_fn=lambda c: json.dumps(c, sort_keys=True))
 
+    gcases = []
+    allk = ['internal', 'nterm', 'cterm', 'labile', 'static', 'isotope', 'unknown', 'charge', 'adducts']
+    for _ in range(nrand):
+        kinds = set(rng.sample(allk, rng.randint(1, 5))) | {'internal'}
+        t = annot.gen_annotation(rng, 1, 10, residues=rng.choice(['AK', 'ACKMST']), p=0.45, kinds=kinds,
+                                 value_pool=POOL[:3], max_mods=2, mult_p=0.1, intervals=False)
+        n = len(t._sequence)
+        r = rng.random()
+        if r < 0.4:
+            q = cut(t, 0, n)
+            idx = sorted(rng.sample(range(n), rng.randint(1, n)))
+            if rng.random() < 0.5:
+                idx = [0] + [k for k in idx if k not in (0, n - 1)] + ([n - 1] if n > 1 else [])
+            q._sequence = ''.join(t._sequence[k] for k in idx)
+            q._internal_mods = {j: copy.deepcopy(t._internal_mods[k]) for j, k in enumerate(idx)
+                                if t._internal_mods and k in t._internal_mods} or None
+            if idx[0] != 0:
+                q._nterm_mods = None
+            if idx[-1] != n - 1:
+                q._cterm_mods = None
+            if rng.random() < 0.35:
+                q = perturb(rng, q)
+        elif r < 0.8:
+            q = gen_query(rng, t)
+        else:
+            q = annot.gen_annotation(rng, 1, 3, residues='AK', p=0.4, kinds=kinds, value_pool=POOL[:3], max_mods=2,
+                                     mult_p=0.1, intervals=False)
+        gcases.append({'t': annot.dump(t, False), 'q': annot.dump(q, False)})
+    chk.oracle('unordered_containment_general', gcases, lambda c: prop_unordered_general(pt, c),
+               nontrivial_fn=lambda c: True, key_fn=lambda c: json.dumps(c, sort_keys=True))
+
     c17_reach.record(chk, reach)
     if tier == 'thorough':
         chk.leanchecker(['PeptVerif.Props.C16', 'PeptVerif.Lemmas.Search', 'PeptVerif.Model.Search'])
@@ -501,6 +582,17 @@ def prop_unordered(pt, c):
     return None
 
 
+def prop_unordered_general(pt, c):
+    t, q = annot.undump(c['t']), annot.undump(c['q'])
+    kt, kq = ref_residue_keys(t), ref_residue_keys(q)
+    exp = all(kq[k] <= kt[k] for k in kq)
+    got = pt.is_subsequence(copy.deepcopy(q), copy.deepcopy(t), order=False)
+    if got != exp:
+        return (f'is_subsequence({q.serialize()!r}, {t.serialize()!r}, order=False) = {got}, multiset inclusion of modified '
+                f'residues (static rules applied, terminal mods on the end residues) is {exp}')
+    return None
+
+
 # ----------------------------------------------------------------------------- corpus / replay / classification
 
 def eval_failure(obj):
@@ -517,6 +609,8 @@ def eval_failure(obj):
             return prop_modified(pt, c)
         if o == 'unordered_containment':
             return prop_unordered(pt, c)
+        if o == 'unordered_containment_general':
+            return prop_unordered_general(pt, c)
     except Exception as e:  # noqa
         return f'unexpected {type(e).__name__}: {e}'
     return 'unknown oracle ' + str(o)
